@@ -553,9 +553,7 @@ func (d *driver) run() {
 			d.sealRaces(round, sorted)
 			d.parPasses(round, sorted)
 			d.useLock(sorted)
-			if round == 0 {
-				d.overlapCandidate(sorted)
-			}
+			d.overlapRegress(sorted)
 			nrep := 2
 			if !quick {
 				nrep = 3
